@@ -17,9 +17,9 @@ type ynode struct {
 	s     string
 }
 
-func ystr(s string) *ynode  { return &ynode{kind: "str", s: s} }
-func yint(i int64) *ynode   { return &ynode{kind: "int", s: fmt.Sprint(i)} }
-func ymap() *ynode          { return &ynode{kind: "map"} }
+func ystr(s string) *ynode        { return &ynode{kind: "str", s: s} }
+func yint(i int64) *ynode         { return &ynode{kind: "int", s: fmt.Sprint(i)} }
+func ymap() *ynode                { return &ynode{kind: "map"} }
 func yseq(items ...*ynode) *ynode { return &ynode{kind: "seq", items: items} }
 func (m *ynode) put(k string, v *ynode) *ynode {
 	m.keys = append(m.keys, k)
@@ -153,12 +153,12 @@ func (st *ystyle) block(w *strings.Builder, n *ynode, ind int) {
 // ----- profile -> YAML tree, with the order of every mapping / list decided by `perm` -----
 
 type treeCtx struct {
-	atoms   []Atom
-	paths   []Path
-	g       *G
-	shuffle bool
-	prefix  func() string // prefix to use for a compact IRI
-	extAlias string       // declared alias of the API-extension namespace ("" = only the built-in apiExt)
+	atoms    []Atom
+	paths    []Path
+	g        *G
+	shuffle  bool
+	prefix   func() string // prefix to use for a compact IRI
+	extAlias string        // declared alias of the API-extension namespace ("" = only the built-in apiExt)
 }
 
 func (c *treeCtx) pathText(p Path) string {
